@@ -4,7 +4,17 @@ Scenario:  <via> op*   with  op ::= :a <n> | :d <k> <n> | :f <k> <n> | :cc | :ca
   :f k n    dealloc(foreign buffer k, n)   :cc      clearCache        :ca   clearAllIncludingCurrentlyUsedMemory
   via = 1 routes alloc/dealloc through SimpleStringCacheAllocator.  Construction precedes, destruction follows the ops.
 Observation: one item per step (construction, each op, destruction):
-  :i <nev> (:A <id> <sz> | :F <id> <sz>)* (~ | :r <id> <off>) <warn>"""
+  :i <nev> (:A <id> <sz> | :F <id> <sz>)* (~ | :r <id> <off>) <warn>
+
+Installed scenarios (first token 2; coq/C18_ModelG.v):  2 gop*  with
+  gop ::= :a <n> | :s <n> | :d <k> <n> | :f <k> <n> | :cc | :ca | :gi | :go
+  :gi constructs a GlobalSimpleStringCache on top of what is installed, :go destroys the most recent one (objects still alive at
+  the end are destroyed innermost first); :a / :d / :f go to the string allocator in force (the recording allocator when nothing
+  is installed), :s n is a SimpleString with a buffer of n bytes, :cc / :ca clear the innermost object's cache.
+Observation: one item per op and per final destruction:
+  :j <nev> (:A <id> <sz> | :F <id> <sz>)* (~ | :r <id> <off>) <warn> <out> <dbl>
+  events = calls on the recording allocator; out / dbl = pointers the innermost object's cache holds of its underlying allocator /
+  returns of pointers that were not outstanding, counted by a forwarding recorder below the object."""
 ID = "C18"
 FLAVOURS = ["asan"]
 HARNESS_SRCS = ["harness/C18.cpp"]
@@ -16,12 +26,22 @@ RULE = ("histories of 1-300 operations over sizes {0,1,31,32,33,63,64,65,95,96,9
         "(head, interior, last), re-allocate (reuse), with releases of a wrong size in the same class, in another class, across the "
         "cached bound, double releases, releases of dangling pointers (after clearCache/clearAll/non-cached release) and of foreign "
         "buffers, clearCache / clearAll interleaved; plus exhaustive small histories (every release order of 3 and 4 buffers of one "
-        "class, every boundary size pair).  non-trivial = at least two allocs and one release or clear")
+        "class, every boundary size pair).  non-trivial = at least two allocs and one release or clear.  "
+        "INSTALLED histories (GlobalSimpleStringCache over the recording allocator as SimpleString allocator): one to four objects, one after "
+        "the other and nested up to depth 3, each phase requesting raw buffers and strings of cached and non-cached sizes, releasing some "
+        "(right size, wrong size, foreign), with 0-4 buffers of either kind STILL IN USE when the object is destroyed or cleared, clearCache / "
+        "clearAll before the destruction, buffers obtained before any installation or under an earlier / outer object released under the "
+        "next / inner one and after it, objects left to the implicit destruction at the end; plus every combination of {cached, non-cached, "
+        "string, released, in use} x {clearCache, clearAll, nothing} before the destruction of a single and of a nested object")
 ASSUMPTIONS = ["a released pointer refers to readable NUL-terminated memory (the one-time warning prints it with %s by design); the harness keeps "
                "blocks given back to the underlying allocator readable for exactly such a release and poisons them otherwise",
                "the underlying allocator never fails and never returns an address twice within a history (pointer equality = block identity)",
                "an owner clears the cache before destroying it (as GlobalSimpleStringCache does): the bare destructor gives back only the node array",
-               "the size argument seen by the underlying free of the node array is not observable at the PlatformSpecificFree seam"]
+               "the size argument seen by the underlying free of the node array is not observable at the PlatformSpecificFree seam",
+               "installed scenarios: the strings the one-time warning builds for itself (their sizes depend on the wording and on the path of the "
+               "source file) are served outside the cache by the harness; the node array of an installed object's cache comes from the malloc "
+               "allocator and is not in the recording allocator's books; objects are destroyed in the reverse order of their construction; with "
+               "nothing installed a scenario releases only what it obtained with nothing installed, once, with its size"]
 CRASH_IS_VIOLATION = True
 PER_TIMEOUT = 30.0
 
@@ -193,8 +213,198 @@ def exhaustive():
     return out
 
 
+
+# ------------------------------------------------------------------------------------------------ installed scenarios
+class GRef:
+    """who owns what in an installed scenario (steers generation, validity, classification); not a cache"""
+
+    def __init__(self):
+        self.depth = 0
+        self.ser = 0
+        self.stack = []         # serials, outermost first
+        self.allocs = []        # dict(size, owner serial (0 = nothing installed), live (not knowingly released / object alive), string)
+
+    def live_of(self, ser):
+        return [i for i, a in enumerate(self.allocs) if a["live"] and a["owner"] == ser]
+
+    def top(self):
+        return self.stack[-1] if self.stack else 0
+
+
+def gvalid(ops):
+    depth = 0
+    direct = []
+    for o in ops:
+        if o[0] in (":a", ":s"):
+            direct.append(int(o[1], 16) if depth == 0 else None)
+        elif o[0] == ":d":
+            k, n = int(o[1], 16), int(o[2], 16)
+            if k >= len(direct):
+                return False
+            if depth == 0:
+                if direct[k] is None or direct[k] != n:
+                    return False
+                direct[k] = None
+        elif o[0] in (":f", ":cc", ":ca"):
+            if depth == 0:
+                return False
+        elif o[0] == ":gi":
+            depth += 1
+        elif o[0] == ":go":
+            if depth == 0:
+                return False
+            depth -= 1
+        else:
+            return False
+    return True
+
+
+def gen_installed(rng, budget):
+    r = GRef()
+    ops = []
+
+    def size(kind=None):
+        kind = kind or rng.choice(["c", "c", "c", "n", "n", "e"])
+        if kind == "c":
+            return max(1, size_in_class(rng, rng.randrange(len(CLASSES))))
+        if kind == "n":
+            return size_in_class(rng, len(CLASSES))
+        return max(1, rng.choice(EDGE))
+
+    def alloc(kind=None):
+        n = size(kind)
+        st = rng.random() < 0.4
+        ops.append((":s" if st else ":a") + " %x" % n)
+        r.allocs.append({"size": n, "owner": r.top(), "live": True, "string": st})
+
+    def release(k, n=None):
+        a = r.allocs[k]
+        n = a["size"] if n is None else n
+        if r.depth == 0:
+            if not (a["owner"] == 0 and a["live"]):
+                return
+            n = a["size"]
+            a["live"] = False
+        elif a["owner"] == r.top() and a["live"] and cls(n) == cls(a["size"]):
+            a["live"] = False
+        ops.append(":d %x %x" % (k, n))
+
+    def wipe(pop):
+        top = r.top()
+        for i in r.live_of(top):
+            a = r.allocs[i]
+            if r.depth >= 2 and cls(a["size"]) >= len(CLASSES):
+                a["owner"] = r.stack[-2]        # the outer cache goes on holding it
+            else:
+                a["live"] = False
+        if pop:
+            r.stack.pop()
+            r.depth -= 1
+
+    def phase():
+        """one object's life: requests, some releases, what is left in use, clears, maybe a nested object, destruction"""
+        ops.append(":gi")
+        r.ser += 1
+        r.stack.append(r.ser)
+        r.depth += 1
+        me = r.ser
+        for _ in range(rng.choice([0, 1, 2, 3, 5, 8])):
+            alloc()
+        # release some of mine, keep some in use
+        mine = r.live_of(me)
+        rng.shuffle(mine)
+        keep = rng.choice([0, 0, 1, 2, 3, 4])
+        for k in mine[keep:]:
+            m = rng.random()
+            if m < 0.75:
+                release(k)
+            elif m < 0.9:
+                release(k, size_in_class(rng, cls(r.allocs[k]["size"])))
+            else:
+                release(k, rng.choice(EDGE))
+        # something that does not belong to this object
+        if r.allocs and rng.random() < 0.45:
+            others = [i for i, a in enumerate(r.allocs) if a["owner"] != me]
+            if others:
+                k = rng.choice(others)
+                release(k, r.allocs[k]["size"] if rng.random() < 0.8 else rng.choice(EDGE))
+                if rng.random() < 0.3:
+                    release(k, r.allocs[k]["size"])
+        if rng.random() < 0.15:
+            ops.append(":f %x %x" % (rng.randrange(4), size()))
+        if rng.random() < 0.3 and r.depth < 3 and len(ops) < budget:
+            phase()
+            for _ in range(rng.choice([0, 1, 2])):
+                alloc()
+            if rng.random() < 0.5 and r.live_of(me):
+                release(rng.choice(r.live_of(me)))
+        c = rng.random()
+        if c < 0.25:
+            ops.append(":cc")
+        elif c < 0.4:
+            ops.append(":ca")
+            wipe(False)
+        elif c < 0.5:
+            ops.append(":cc")
+            for _ in range(rng.choice([1, 2])):
+                alloc()
+        if rng.random() < 0.2:
+            return "open"                 # left to the implicit destruction at the end of the scenario
+        ops.append(":go")
+        wipe(True)
+        return "closed"
+
+    for _ in range(rng.choice([0, 0, 1, 2])):            # buffers obtained before anything is installed
+        alloc()
+    nph = rng.choice([1, 1, 2, 2, 3, 4])
+    for _ in range(nph):
+        if len(ops) >= budget:
+            break
+        if phase() == "open":
+            break
+        if r.depth == 0:
+            d = [i for i, a in enumerate(r.allocs) if a["owner"] == 0 and a["live"]]
+            if d and rng.random() < 0.4:
+                release(rng.choice(d))
+            if rng.random() < 0.3:
+                alloc()
+    s = "2 " + " ".join(ops)
+    assert gvalid([o.split() for o in ops_split(s)[1]]), s
+    return s
+
+
+def ops_split(s):
+    via, ops = split_ops(s)
+    return via, [" ".join(o) for o in ops]
+
+
+def exhaustive_installed():
+    out = []
+    kinds = {"c": ":a 14", "C": ":a 100", "n": ":a 12c", "s": ":s 14", "S": ":s 190"}
+    sizes = {"c": 0x14, "C": 0x100, "n": 0x12c, "s": 0x14, "S": 0x190}
+    import itertools
+    # one object: every pair of buffers, each released or in use, every clear before the destruction
+    for a, b in itertools.product("cCnsS", repeat=2):
+        for rel in ((), (0,), (1,), (0, 1)):
+            for clr in ("", ":cc", ":ca"):
+                ops = [":gi", kinds[a], kinds[b]] + [":d %x %x" % (i, sizes[(a, b)[i]]) for i in rel] + ([clr] if clr else [])
+                out.append("2 " + " ".join(ops + [":go"]))
+    # nested: the inner object dies with buffers in use, then the outer one
+    for a in "cCnsS":
+        for b in "cns":
+            for clr in ("", ":cc", ":ca"):
+                out.append("2 :gi %s :gi %s %s :go :go" % (kinds[a], kinds[b], clr))
+                out.append("2 :gi %s :gi %s %s" % (kinds[a], kinds[b], clr))
+                out.append("2 :gi :gi %s %s :go %s :f 0 5 :go" % (kinds[b], clr, kinds[a]))
+    # one after the other: a buffer of the first object released under the second and after it
+    for a in "cns":
+        out.append("2 :gi %s :go :gi :d 0 %x :d 0 %x %s :go" % (kinds[a], sizes[a], sizes[a], kinds[a]))
+        out.append("2 %s :gi %s :d 0 %x :d 1 %x :go :d 0 %x" % (kinds[a], kinds[a], sizes[a], sizes[a], sizes[a]))
+        out.append("2 :gi %s :d 0 %x :go :gi %s :go" % (kinds[a], sizes[a], kinds[a]))
+    return out
+
 def generate(tier, rng):
-    out = exhaustive()
+    out = exhaustive() + exhaustive_installed()
     if tier == "quick":
         plan = [(900, 1, 14), (500, 10, 40), (60, 60, 300)]
     else:
@@ -202,6 +412,8 @@ def generate(tier, rng):
     for count, lo, hi in plan:
         for _ in range(count):
             out.append(gen_history(rng, rng.randrange(lo, hi + 1)))
+    for _ in range(1500 if tier == "quick" else 60000):
+        out.append(gen_installed(rng, rng.choice([6, 12, 25, 60])))
     return out
 
 
@@ -218,8 +430,14 @@ def split_ops(s):
     return t[0], ops
 
 
+def is_installed(s):
+    return s.split()[0] == "2"
+
+
 def nontrivial(s):
     _, ops = split_ops(s)
+    if is_installed(s):
+        return any(o[0] == ":gi" for o in ops) and any(o[0] in (":a", ":s") for o in ops)
     return sum(1 for o in ops if o[0] == ":a") >= 2 and any(o[0] in (":d", ":f", ":cc", ":ca") for o in ops)
 
 
@@ -257,7 +475,73 @@ def replay_ref(s):
     return res
 
 
+def classify_installed(s):
+    _, ops = split_ops(s)
+    lab = ["installed"]
+    depth = mx = 0
+    npush = 0
+    owner = []          # per request: (depth index of the owning object in `stack`, size) ; stack of serials
+    stack = []
+    ser = 0
+    alive = {}
+    inuse_at_pop = set()
+    for o in ops + [[":go"]] * 8:
+        if o[0] == ":gi":
+            ser += 1
+            stack.append(ser)
+            npush += 1
+            mx = max(mx, len(stack))
+        elif o[0] in (":a", ":s"):
+            owner.append([stack[-1] if stack else 0, int(o[1], 16), True])
+            if o[0] == ":s":
+                lab.append("string")
+        elif o[0] == ":d":
+            k, n = int(o[1], 16), int(o[2], 16)
+            top = stack[-1] if stack else 0
+            a = owner[k]
+            if a[2] and a[0] == top and (top == 0 or cls(n) == cls(a[1])):
+                a[2] = False
+            else:
+                if not stack:
+                    pass
+                elif a[0] == 0:
+                    lab.append("release-under-object:obtained-before-installation")
+                elif a[0] not in stack:
+                    lab.append("release-under-object:of-a-destroyed-object")
+                elif a[0] != top:
+                    lab.append("release-under-object:of-an-outer-object")
+                else:
+                    lab.append("release-under-object:unknown")
+        elif o[0] in (":ca", ":go"):
+            if not stack:
+                break
+            top = stack[-1]
+            for a in owner:
+                if a[2] and a[0] == top:
+                    kind = "non-cached" if cls(a[1]) >= len(CLASSES) else "cached"
+                    lab.append(("destroyed" if o[0] == ":go" else "cleared") + "-with-in-use:" + kind + (":nested" if len(stack) >= 2 else ""))
+                    if len(stack) >= 2 and kind == "non-cached":
+                        a[0] = stack[-2]
+                    else:
+                        a[2] = False
+            if o[0] == ":go":
+                stack.pop()
+        elif o[0] == ":cc":
+            lab.append("clearCache")
+        elif o[0] == ":f":
+            lab.append("foreign")
+    lab.append("objects:%d" % npush)
+    lab.append("depth:%d" % mx)
+    if ops and ops[-1][0] != ":go" and any(o[0] == ":gi" for o in ops):
+        n_open = sum(1 for o in ops if o[0] == ":gi") - sum(1 for o in ops if o[0] == ":go")
+        if n_open > 0:
+            lab.append("implicit-destruction")
+    return sorted(set(lab))
+
+
 def classify(s):
+    if is_installed(s):
+        return classify_installed(s)
     via, ops = split_ops(s)
     lab = ["via:" + via]
     n = len(ops)
@@ -290,6 +574,8 @@ def signature(s, o):
     """coarse: the kind of the first operation whose observation departs from the textbook cache"""
     if o.startswith("!"):
         return "crash " + o[:70]
+    if is_installed(s):
+        return signature_installed(s, o)
     try:
         its = items(o)
         rr = replay_ref(s)
@@ -323,11 +609,94 @@ def signature(s, o):
         return "malformed observation"
 
 
+def gitems(o):
+    res, cur = [], []
+    for x in o.split():
+        if x == ":j" and cur:
+            res.append(cur)
+            cur = []
+        cur.append(x)
+    if cur:
+        res.append(cur)
+    return res
+
+
+def signature_installed(s, o):
+    """coarse: what the forwarding recorder / the recording allocator show first"""
+    try:
+        _, ops = split_ops(s)
+        its = gitems(o)
+        depth = 0
+        for i, it in enumerate(its):
+            op = ops[i][0] if i < len(ops) else ":go"
+            out, dbl = int(it[-2], 16), int(it[-1], 16)
+            if dbl:
+                return "installed: a pointer returned that was not outstanding (at %s)" % op
+            if op in (":ca", ":go") and out:
+                return "installed: %s leaves memory of the underlying allocator unreturned (%s)" % (op, "nested" if depth >= 2 else "outermost")
+            if op == ":gi":
+                depth += 1
+            if op == ":go":
+                depth -= 1
+        return "installed: other (events / returned pointer / warning)"
+    except Exception:
+        return "installed: malformed observation"
+
+
+def shrink_installed(s):
+    _, ops = split_ops(s)
+
+    def emit(new):
+        if gvalid(new):
+            yield "2 " + " ".join(" ".join(o) for o in new)
+
+    for i in range(len(ops) - 1, -1, -1):
+        o = ops[i]
+        if o[0] in (":a", ":s"):
+            k = sum(1 for x in ops[:i] if x[0] in (":a", ":s"))
+            new = []
+            for j, x in enumerate(ops):
+                if j == i:
+                    continue
+                if x[0] == ":d":
+                    kk = int(x[1], 16)
+                    if kk == k:
+                        continue
+                    if kk > k:
+                        x = [":d", "%x" % (kk - 1), x[2]]
+                new.append(x)
+            yield from emit(new)
+        elif o[0] == ":gi":
+            # drop the object: its :gi and the matching :go (if any)
+            d = 0
+            m = None
+            for j in range(i + 1, len(ops)):
+                if ops[j][0] == ":gi":
+                    d += 1
+                elif ops[j][0] == ":go":
+                    if d == 0:
+                        m = j
+                        break
+                    d -= 1
+            yield from emit([x for j, x in enumerate(ops) if j != i and j != m])
+        elif o[0] == ":go":
+            if i == len(ops) - 1:
+                yield from emit(ops[:i])          # left to the implicit destruction
+        else:
+            yield from emit(ops[:i] + ops[i + 1:])
+    for i, o in enumerate(ops):
+        if o[0] == ":s":
+            yield from emit(ops[:i] + [[":a", o[1]]] + ops[i + 1:])
+
+
 def fmt(via, ops):
     return (via + " " + " ".join(" ".join(o) for o in ops)).strip()
 
 
 def shrink(s):
+    if is_installed(s):
+        yield from shrink_installed(s)
+        return
     via, ops = split_ops(s)
     # drop one op (dropping an :a renumbers later releases and drops the releases of that alloc)
     for i in range(len(ops) - 1, -1, -1):
